@@ -159,6 +159,7 @@ func run(c *rt.Ctx) {
 		wfTotal[j.set] += total
 		mu <- struct{}{}
 	})
+	lintLeg(c)
 	rates := map[string]float64{}
 	low := false
 	for i, s := range sets {
